@@ -6,6 +6,6 @@ const (
 )
 
 const (
-	c26Comps   = 2
-	c26LexLen  = 5
+	c26Comps  = 2
+	c26LexLen = 5
 )
